@@ -68,6 +68,8 @@ func Scanner(g interface{}) *GeometryScanner {
 // the scanner.Geometry attribute.
 func (s *GeometryScanner) Scan(d interface{}) error {
 	if d == nil {
+		s.Geometry = nil
+		s.Valid = false
 		return nil
 	}
 
